@@ -90,8 +90,12 @@ impl MakeOperators<Sym> for SymOps {
 }
 
 pub enum Interp {
+    /// AC function number n (n-th honoured flagged operator of the table)
+    Ac(usize),
     Builtin(&'static str),
     Uf(String),
+    /// SMT term with {a} and {b} placeholders (piecewise operators of the value table)
+    Template(&'static str),
 }
 
 const AC_BUILTINS: [&str; 5] = ["bvadd", "bvmul", "bvxor", "bvor", "bvand"];
@@ -114,8 +118,11 @@ pub fn interp_bin(k: u16, th: Theory) -> Interp {
                         .iter()
                         .filter(|p| matches!(p.bin, Some((_, true))) && !t.not_really_ac.contains(&p.repr))
                         .count();
-                    assert!(n < AC_BUILTINS.len(), "too many flagged operators in table");
-                    Interp::Builtin(AC_BUILTINS[n])
+                    if n < AC_BUILTINS.len() {
+                        Interp::Builtin(AC_BUILTINS[n])
+                    } else {
+                        Interp::Ac(n)
+                    }
                 } else {
                     Interp::Uf(format!("ub_{}", san(o.repr)))
                 }
@@ -126,6 +133,15 @@ pub fn interp_bin(k: u16, th: Theory) -> Interp {
                 "*" => Interp::Builtin("*"),
                 "/" => Interp::Builtin("/"),
                 "^" => Interp::Uf("pow".to_string()),
+                // value table: `a if c` is a when c is true and none otherwise; `r else b` is b when r is none
+                "if" => Interp::Template("(ite (not (= {b} 0.0)) {a} val_none)"),
+                "else" => Interp::Template("(ite (= {a} val_none) {b} {a})"),
+                "<" => Interp::Template("(ite (< {a} {b}) 1.0 0.0)"),
+                "<=" => Interp::Template("(ite (<= {a} {b}) 1.0 0.0)"),
+                ">" => Interp::Template("(ite (> {a} {b}) 1.0 0.0)"),
+                ">=" => Interp::Template("(ite (>= {a} {b}) 1.0 0.0)"),
+                "==" => Interp::Template("(ite (= {a} {b}) 1.0 0.0)"),
+                "!=" => Interp::Template("(ite (= {a} {b}) 0.0 1.0)"),
                 r => Interp::Uf(format!("ub_{}", san(r))),
             },
         }
